@@ -6,6 +6,7 @@ import (
 	"sort"
 	"strings"
 
+	"github.com/zenon-network/go-zenon/chain"
 	g "github.com/zenon-network/go-zenon/chain/genesis/mock"
 	"github.com/zenon-network/go-zenon/chain/nom"
 	"github.com/zenon-network/go-zenon/common/types"
@@ -39,9 +40,15 @@ type consSend struct {
 	height uint64 // confirming momentum
 }
 
+// consNode: the node whose chain is read - the producing mock node (*Node) or a follower fed by a peer (*zFollower)
+type consNode interface {
+	Chain() chain.Chain
+	Height() uint64
+}
+
 type consMonitor struct {
 	c        *Ctx
-	n        *Node
+	n        consNode
 	tag      string
 	last     types.HashHeight
 	inflight map[types.Hash]*consSend
@@ -59,7 +66,7 @@ type consMonitor struct {
 	preGate bool
 }
 
-func newConsMonitor(c *Ctx, n *Node, tag string) *consMonitor {
+func newConsMonitor(c *Ctx, n consNode, tag string) *consMonitor {
 	m := &consMonitor{c: c, n: n, tag: tag}
 	m.reset()
 	return m
